@@ -60,14 +60,15 @@ pub fn keep<T, E>(r: Result<T, E>) -> Option<T> {
 }
 
 /// Set by replay unit tests (run_check.py): the harness runs natively, `#[kani::stub]`s are not applied.
-static mut PLAYBACK: bool = false;
+/// (tagged: see the note on monitor statics in stubs.rs)
+static mut PLAYBACK: (u32, bool) = (0x706C_6179, false);
 
 pub fn set_playback(on: bool) {
     unsafe {
-        PLAYBACK = on;
+        PLAYBACK.1 = on;
     }
 }
 
 pub fn is_playback() -> bool {
-    unsafe { PLAYBACK }
+    unsafe { PLAYBACK.1 }
 }
